@@ -174,6 +174,13 @@ def scenarios(rng, tmp, tier, pre=0.5):
                       want="nonzero", events=["timeout", "stop"]))
         S.append(dict(name=f"{vs}: script done well inside --timeout 20", actions=handshake(v), args=["key", "a"], timeout=20,
                       want="zero", events=["completed", "lostclean", "stop"], complete=True))
+    # ---- --timeout counts wall-clock seconds whatever --warp says (warp scales the script's pauses only)
+    v = b"003.008"
+    S.append(dict(name="--warp 4: 'key a pause 8 key b' (2 s of wall clock) inside --timeout 6", actions=handshake(v),
+                  args=["--warp", "4", "key", "a", "pause", "8", "key", "b"], timeout=6, want="zero",
+                  events=["completed", "lostclean", "stop"], complete=True))
+    S.append(dict(name="--warp 0.25: server goes silent, --timeout 2", actions=handshake(v) + [("silent",)],
+                  args=["--warp", "0.25", "capture", os.path.join(tmp, "warp.png")], timeout=2, want="nonzero", events=["timeout", "stop"]))
     # ---- more output than the socket buffers hold: the close itself depends on the server reading
     big = os.path.join(tmp, "big.txt")
     with open(big, "w") as f:
@@ -186,7 +193,7 @@ def scenarios(rng, tmp, tier, pre=0.5):
                   want="nonzero", events=["completed", "losterror", "stop"], big=True))
     if tier == "quick":
         # a third of the grid per run, always with the special cases
-        keep = [s for i, s in enumerate(S) if s.get("big") or s["actions"] is None or "slow handshake" in s["name"]
+        keep = [s for i, s in enumerate(S) if s.get("big") or s["actions"] is None or "slow handshake" in s["name"] or "--warp" in s["name"]
                 or "key a key b key c" in s["name"] or "final pause" in s["name"] or "unknown key name" in s["name"] or (i + rng.randrange(3)) % 3 == 0]
         return keep
     return S
